@@ -79,6 +79,11 @@ func TestVerifC06(t *testing.T) {
 			// each issuance lies under the issuer that made it; then a renewal answered by the fall-back again
 			c06History(t, o, seed+1, keyTypes, h, "obtain", "dropcert", "flip", "obtain", "flip", "renew", "flip", "renew")
 			o.Stat("scripted_two_issuer_histories", 1)
+			// the FIRST-listed issuer holds the key (it issued, the certificate disappeared): key reuse
+			// "moves it to the front" — the configured list itself stays what it was, and the bundle of
+			// the new issuance is loadable through the same configuration
+			c06History(t, o, seed+2, keyTypes, h, "flip", "obtain", "dropcert", "obtain", "renew", "flip", "renew")
+			o.Stat("scripted_two_issuer_histories", 1)
 		}
 	}
 	c06Newest(t, o, rng)
@@ -163,6 +168,7 @@ func c06History(t *testing.T, o *vOut, seed int64, keyTypes []KeyType, idx int, 
 		if failFirstIssuer {
 			viss[0].Behave = func(int, []string) error { return fmt.Errorf("verif: first issuer down") }
 		}
+		configured := append([]Issuer(nil), issuers...) // (a copy: the configuration gets the slice itself)
 		cache, cfg := vNewCfg(st, issuers, func(c *Config, _ *CacheOptions) {
 			c.ReusePrivateKeys = reuse
 			c.KeySource = StandardKeyGenerator{KeyType: kt}
@@ -288,6 +294,17 @@ func c06History(t *testing.T, o *vOut, seed int64, keyTypes []KeyType, idx int, 
 					if cs[i].Err == "" && (last == nil || cs[i].End > last.End) {
 						last = &cs[i]
 					}
+				}
+			}
+			// no operation rearranges the issuers the configuration was given
+			if len(cfg.Issuers) != len(configured) {
+				o.Mon("C06 configured-issuers-changed", map[string]any{"seed": seed, "subject": subj.given, "op": op})
+				return
+			}
+			for i := range configured {
+				if cfg.Issuers[i] != configured[i] {
+					o.Mon("C06 configured-issuers-changed", map[string]any{"seed": seed, "subject": subj.given, "op": op, "position": i})
+					return
 				}
 			}
 			issued := calls1 > calls0 && err == nil
